@@ -17,6 +17,7 @@ package redis
 import (
 	"crypto/tls"
 	"errors"
+	"fmt"
 	"io"
 	"net"
 	"strconv"
@@ -336,7 +337,15 @@ func (server *Server) receive(conn net.Conn, tlsState *tls.ConnectionState) erro
 }
 
 // handleMessage handles a client message.
-func (server *Server) handleMessage(conn *Conn, msg *proto.Message) (*Message, error) {
+func (server *Server) handleMessage(conn *Conn, msg *proto.Message) (resMsg *Message, err error) {
+	// A panic while executing one request must not take down the whole server.
+	defer func() {
+		if r := recover(); r != nil {
+			log.Errorf("%s: %v", ErrSystem.Error(), r)
+			resMsg = nil
+			err = fmt.Errorf("%w: %v", ErrSystem, r)
+		}
+	}()
 	switch msg.Type {
 	case proto.StringMessage:
 		return nil, nil
@@ -361,7 +370,10 @@ func (server *Server) responseMessage(conn io.Writer, msg *Message) error {
 	var bytes []byte
 	var err error
 	if msg != nil {
-		bytes, err = msg.RESPBytes()
+		bytes, err = safeRESPBytes(msg)
+		if err != nil {
+			bytes, err = NewErrorMessage(err).RESPBytes()
+		}
 	} else {
 		bytes, err = NewErrorMessage(ErrSystem).RESPBytes()
 	}
@@ -370,6 +382,17 @@ func (server *Server) responseMessage(conn io.Writer, msg *Message) error {
 	}
 	_, err = conn.Write(bytes)
 	return err
+}
+
+// safeRESPBytes serializes a message that may be incomplete (e.g. a nil element returned by a handler).
+func safeRESPBytes(msg *Message) (bytes []byte, err error) {
+	defer func() {
+		if r := recover(); r != nil {
+			bytes = nil
+			err = fmt.Errorf("%w: %v", ErrSystem, r)
+		}
+	}()
+	return msg.RESPBytes()
 }
 
 // handleMessage handles a client message.
